@@ -641,4 +641,58 @@ theorem noShare_clone_other {w w' : World} {i : Nat} (h : w.step (.clone i) = so
     cases hvX
     exact hns v vY key info k a n hv hvY hm (by rw [← pendingRange_congr (v := v) rfl rfl]; exact hpr)
 
+/-! ### One iovec against all others -/
+
+/-- No slice of iovec `i` covers a pending placeholder range of any OTHER iovec. -/
+def Unshared (w : World) (i : Nat) : Prop := ∀ X, X ≠ i → NoShare w X i
+
+/-- `Unshared w i` is preserved by every step, except a `clone` of `i` itself taken while `i` has a
+placeholder pending (the clone then shares it). -/
+theorem unshared_step {w w' : World} {caps : Nat → Nat} {op : WOp} {i : Nat} (hg : GReach w caps)
+    (h : w.step op = some w') (hi : i < w.iovs.length) (hu : Unshared w i)
+    (hc : ∀ v, op = .clone i → w.iov i = some v → v.backrefs = []) : Unshared w' i := by
+  have hb := hg.base
+  have hin : i ≠ w.iovs.length := Nat.ne_of_lt hi
+  by_cases hop : (∃ j, op = .take j) ∨ ∃ j, op = .clone j
+  · rcases hop with ⟨j, rfl⟩ | ⟨j, rfl⟩
+    · obtain ⟨vj, hvj, hiov⟩ := take_iov h
+      intro X hXi vX vY key info k a n hvX hvY hm hpr s hs hr
+      rw [hiov] at hvX hvY
+      rw [if_neg hin] at hvY
+      by_cases hij : i = j
+      · rw [if_pos hij] at hvY; cases hvY; simp [Iov.empty] at hs
+      · rw [if_neg hij] at hvY
+        by_cases hXn : X = w.iovs.length
+        · rw [if_pos hXn] at hvX; cases hvX
+          exact hu j (fun e => hij e.symm) vj vY key info k a n hvj hvY hm hpr s hs hr
+        · rw [if_neg hXn] at hvX
+          by_cases hXj : X = j
+          · rw [if_pos hXj] at hvX; cases hvX; simp [Iov.empty] at hm
+          · rw [if_neg hXj] at hvX
+            exact hu X hXi vX vY key info k a n hvX hvY hm hpr s hs hr
+    · obtain ⟨vj, hvj, hiov⟩ := clone_iov h
+      intro X hXi vX vY key info k a n hvX hvY hm hpr s hs hr
+      rw [hiov] at hvX hvY
+      rw [if_neg hin] at hvY
+      by_cases hXn : X = w.iovs.length
+      · rw [if_pos hXn] at hvX; cases hvX
+        simp only at hm
+        by_cases hij : i = j
+        · subst hij
+          rw [hc vj rfl hvj] at hm; cases hm
+        · exact hu j (fun e => hij e.symm) vj vY key info k a n hvj hvY hm
+            (by rw [← pendingRange_congr (v := vj) rfl rfl]; exact hpr) s hs hr
+      · rw [if_neg hXn] at hvX
+        exact hu X hXi vX vY key info k a n hvX hvY hm hpr s hs hr
+  · have hnt : ∀ j, op ≠ .take j ∧ op ≠ .clone j :=
+      fun j => ⟨fun e => hop (Or.inl ⟨j, e⟩), fun e => hop (Or.inr ⟨j, e⟩)⟩
+    obtain ⟨T, A, ht⟩ := step_tstep hg hb.wf hnt h
+    intro X hXi
+    exact ht.noShare hb.apriv (hu X hXi) hXi
+
+/-- A freshly created, still empty iovec shares nothing. -/
+theorem unshared_of_no_slices {w : World} {i : Nat} (h : ∀ v, w.iov i = some v → v.slices = []) : Unshared w i := by
+  intro X _ vX vY key info k a n _ hvY _ _ s hs
+  rw [h vY hvY] at hs; cases hs
+
 end Woodpile.Iovec
